@@ -184,4 +184,144 @@ theorem upd_w_body (ds : DistSem) : ∀ (b : Body) (i : In) (olds env) (st st' :
       omega
 end
 
+/-! ### the same law for `Regenerate` -/
+
+theorem leaf_regen_w {ds d i r told} (h : leaf ds .regen d i = .ok r) (ho : i.old = some told) :
+    r.w = r.tr.score - told.score := by
+  unfold leaf at h
+  simp only [bind_ok, oldOf, ho] at h
+  obtain ⟨t, ht, h2⟩ := h
+  simp at ht; subst ht
+  split at h2
+  · split at h2 <;> simp at h2 <;> subst h2 <;> simp [Trace.score]
+  · simp at h2
+
+theorem bindIn_regen {i olds st addr a i'} (h : bindIn .regen i olds st addr a = .ok i') :
+    lookupSub st.subs addr = none ∧ ∃ t, lookupSub olds addr = some t ∧ i'.old = some t ∧ i'.changed = i.changed := by
+  unfold bindIn at h
+  split at h
+  · simp at h
+  · rename_i hn
+    have hn : lookupSub st.subs addr = none := by
+      cases hl : lookupSub st.subs addr with
+      | none => rfl
+      | some t => simp [hl] at hn
+    refine ⟨hn, ?_⟩
+    split at h
+    · simp at h
+    · simp only [bindOld] at h
+      cases hl : lookupSub olds addr with
+      | none => simp [hl] at h
+      | some t =>
+        simp [hl] at h; subst h
+        exact ⟨t, rfl, rfl, rfl⟩
+
+mutual
+theorem regen_w (ds : DistSem) : ∀ (p : Prog) (i : In) (r : Res) (told : Trace),
+    run ds .regen p i = .ok r → i.old = some told → Shape p told →
+    r.w = r.tr.score - told.score
+  | .dist d, i, r, told, h, ho, _ => by simp only [run] at h; exact leaf_regen_w h ho
+  | .static b, i, r, told, h, ho, hs => by
+    simp only [run, staticRun, bind_ok, pure_ok] at h
+    obtain ⟨env, _, olds, h2, ⟨st, v⟩, h3, rfl⟩ := h
+    cases told <;> simp only [Shape] at hs
+    rename_i targs tret tsubs
+    simp [staticOlds, ho] at h2; subst h2
+    have := regen_w_body ds b i tsubs env {} st v [] tsubs h3 (by simp) hs (by simp) (by simp [Trace.scoreAL])
+    simpa [Trace.score] using this
+  | .vmap p axes, i, r, told, h, ho, hs => by
+    simp only [run, vmapRun, bind_ok, pure_ok] at h
+    obtain ⟨as, _, n, _, _, hlen, rs, h3, rfl⟩ := h
+    cases told <;> simp only [Shape] at hs
+    rename_i targs tret elems
+    simp [checkOldLen, ho] at hlen
+    have hl := vmapLoop_length h3
+    simp only [vecRes, Trace.score]
+    refine sumW_sub (by omega) ?_
+    intro j h1 h2
+    have hj := vmapLoop_get h3 j h1
+    simp only [bind_ok, Nat.zero_add] at hj
+    obtain ⟨i', hi', hr⟩ := hj
+    simp only [vmapElem, bind_ok, pure_ok] at hi'
+    obtain ⟨ea, _, o, ho', rfl⟩ := hi'
+    simp [nthOld, ho, List.getElem?_eq_getElem h2] at ho'
+    subst ho'
+    exact regen_w ds p _ _ elems[j] hr rfl (hs _ (List.getElem_mem h2))
+  | .scan p len, i, r, told, h, ho, hs => by
+    simp only [run, scanRun, bind_ok, pure_ok] at h
+    obtain ⟨⟨carry, xs⟩, _, _, hlen, ⟨rs, fin⟩, h3, ys, _, rfl⟩ := h
+    cases told <;> simp only [Shape] at hs
+    rename_i targs tret elems
+    simp [checkOldLen, ho] at hlen
+    dsimp only at hlen h3
+    obtain ⟨hl, hg⟩ := scanLoop_get h3
+    simp only [vecRes, Trace.score]
+    refine sumW_sub (by omega) ?_
+    intro j h1 h2
+    obtain ⟨key', c', hj⟩ := hg j h1 (by omega)
+    simp only [bind_ok, Nat.zero_add] at hj
+    obtain ⟨i', hi', hr⟩ := hj
+    simp only [scanElem, bind_ok, pure_ok] at hi'
+    obtain ⟨o, ho', rfl⟩ := hi'
+    simp [nthOld, ho, List.getElem?_eq_getElem h2] at ho'
+    subst ho'
+    exact regen_w ds p _ _ elems[j] hr rfl (hs _ (List.getElem_mem h2))
+  | .switch ps, i, r, told, h, ho, hs => by
+    simp only [run, switchRun, bind_ok] at h
+    obtain ⟨⟨idx, ba⟩, _, h2⟩ := h
+    simp at h2
+  | .mask p, i, r, told, h, ho, hs => by
+    simp only [run, maskRun, bind_ok] at h
+    obtain ⟨⟨check, iargs⟩, _, h2⟩ := h
+    simp at h2
+  | .dimap pre p post, i, r, told, h, ho, hs => by
+    simp only [run, dimapRun, bind_ok, pure_ok] at h
+    obtain ⟨as, _, ia, _, o, ho', r', h4, rv, _, rfl⟩ := h
+    cases told <;> simp only [Shape] at hs
+    rename_i targs tret inner
+    simp [dimapOld, ho] at ho'; subst ho'
+    simp only [Trace.score]
+    exact regen_w ds p _ r' inner h4 rfl hs
+
+theorem regen_w_nth (ds : DistSem) : ∀ (ps : List Prog) (k : Nat) (i : In) (r : Res) (told : Trace),
+    runNth ds .regen ps k i = .ok r → i.old = some told → ShapeNth ps k told →
+    r.w = r.tr.score - told.score
+  | [], _, _, _, _, h, _, _ => by simp [runNth] at h
+  | p :: _, 0, i, r, told, h, ho, hs => by
+    simp only [runNth] at h; exact regen_w ds p i r told h ho (by simpa [ShapeNth] using hs)
+  | _ :: ps, k + 1, i, r, told, h, ho, hs => by
+    simp only [runNth] at h; exact regen_w_nth ds ps k i r told h ho (by simpa [ShapeNth] using hs)
+
+theorem regen_w_body (ds : DistSem) : ∀ (b : Body) (i : In) (olds env) (st st' : SState) (v : Val)
+    (pre suf : List (List String × Trace)),
+    runBody ds .regen b i olds env st = .ok (st', v) → olds = pre ++ suf → ShapeBody b suf →
+    st.subs.map (·.1) = pre.map (·.1) → st.w = Trace.scoreAL st.subs - Trace.scoreAL pre →
+    st'.w = Trace.scoreAL st'.subs - Trace.scoreAL olds
+  | .ret e, i, olds, env, st, st', v, pre, suf, h, ho, hs, _, hw => by
+    simp only [runBody, bind_ok, pure_ok] at h
+    obtain ⟨_, _, h2⟩ := h
+    simp at h2; obtain ⟨rfl, _⟩ := h2
+    simp only [ShapeBody] at hs
+    subst hs; simpa [ho] using hw
+  | .bind addr p aes rest, i, olds, env, st, st', v, pre, suf, h, ho, hs, hk, hw => by
+    simp only [runBody, bind_ok] at h
+    obtain ⟨a, _, i', hi', r, h3, h4⟩ := h
+    cases suf with
+    | nil => simp [ShapeBody] at hs
+    | cons x suf' =>
+      obtain ⟨xa, t⟩ := x
+      simp only [ShapeBody] at hs
+      obtain ⟨rfl, hst, hrest⟩ := hs
+      obtain ⟨hn, t', hl, hio, hch⟩ := bindIn_regen hi'
+      have hl' : lookupSub olds xa = some t := by
+        rw [ho]; exact lookupSub_append_hit (lookupSub_none_of_keys hk hn)
+      rw [hl'] at hl; cases hl
+      have hr := regen_w ds p i' r t h3 hio hst
+      refine regen_w_body ds rest i olds _ _ st' v (pre ++ [(xa, t)]) suf' h4 (by simp [ho]) hrest
+        (by simp [bindOut, hk]) ?_
+      simp only [bindOut, scoreAL_append, Trace.scoreAL, hw, hr]
+      omega
+end
+
+
 end GenjaxVerif.GFI
